@@ -13,7 +13,7 @@ TRUSTED = [
     "HashMap seen_ids is modelled as an association list (only get / insert / contains_key are used, never iteration)",
 ]
 RULE = ("names generated from the documented grammar (capitalised words, lower-case particles, dotted acronyms, roman numerals, leading / inner / trailing numbers, digit-letter compounds, hyphenated words, apostrophes and colons, bracketed year or edition, ' - Mod' suffix); "
-        "for each name: two probes with different wrong ids (the ids the checker itself reports), then candidate ids = each reported id, its upper-case and mixed-case forms, a truncated and an extended form, a random id; lists of 1-4 games with shared names / colliding acronyms; the shipped definitions table; "
+        "for each name: two probes with different wrong ids (the ids the checker itself reports), then candidate ids = each reported id, its upper-case and mixed-case forms, a truncated and an extended form, a random id; lists of 1-4 games with shared names / colliding acronyms, and lists in which a later name continues an earlier one (edition or trailing number written out as words); the shipped definitions table; "
         "non-trivial = name with a number, numeral, hyphen, bracket or mod suffix; distinct by case bytes")
 
 WORDS = ["Dead", "Cells", "Team", "Fortress", "Left", "Day", "Days", "Defeat", "Dragons", "Star", "Wars", "Battlefront", "Grand", "Theft", "Auto",
@@ -191,6 +191,27 @@ def gen_cases(tier, rng):
             ids = [exp.get("w%d" % i, "w%d" % i) for i in range(len(games))]
         cases.append({"id": "list/%d" % k, "hex": id_case(tbl_for(games), list(zip(ids, games))),
                       "meta": {"stream": "list", "tags": ["list"], "n": m}})
+    # lists in which a later name continues an earlier one: an edition or a trailing number written out as words,
+    # so that the later id collides with a stored one whose words are a prefix of the later name's words
+    forced = []
+    for w in ["Minecraft", "Dead Cells", "Unreal Tournament", "Quake", "Team Fortress", "Just Cause"][:(3 if tier == "quick" else 6)]:
+        for ed in ("java", "bedrock", "pocket"):
+            forced.append([w, "%s (%s)" % (w, ed), "%s %s" % (w, ed.capitalize())])
+            forced.append(["%s (%s)" % (w, ed), "%s %s" % (w, ed.capitalize())])
+            forced.append(["%s %s" % (w, ed.capitalize()), "%s (%s)" % (w, ed), w])
+        for a, b in (("23", "2 3"), ("2003", "200 3"), ("44", "4 4")):
+            forced.append(["%s %s" % (w, a), "%s %s" % (w, b)])
+            forced.append(["%s %s" % (w, b), "%s %s" % (w, a), w])
+    ftable = n2w_table([n for g in forced for n in g])
+    ftbl = dict(ftable)
+    for k, games in enumerate(forced):
+        tb = [(x, ftbl[x]) for x in digit_keys(games) if x in ftbl]
+        first = strip(run_impl([id_case(tb, [("w%d" % i, n) for i, n in enumerate(games)])])[0])
+        exp = {fid: e for fid, e, rules in (parse_fails(first) or []) if rules != "L"}
+        for mode in ("wrong", "expected"):
+            ids = ["w%d" % i for i in range(len(games))] if mode == "wrong" else [exp.get("w%d" % i, "w%d" % i) for i in range(len(games))]
+            cases.append({"id": "prefix/%d/%s" % (k, mode), "hex": id_case(tb, list(zip(ids, games))),
+                          "meta": {"stream": "list-name-continues-earlier", "tags": ["list"], "n": len(games), "name": " | ".join(games)}})
     # the shipped table
     try:
         gs = json.load(open(BUILD + "/gen/games.json"))
